@@ -419,9 +419,9 @@ func (so *stateObject) commitState() {
 }
 
 // commitCode persists the state object's code to the ContractStore.
-func (so *stateObject) commitCode() {
+func (so *stateObject) commitCode() error {
 	so.logger.Detail("VM: commit code at key", ethcmn.Bytes2Hex(so.CodeHash()), "with code", ethcmn.Bytes2Hex(so.code))
-	so.stateDB.contractStore.Set(evm.KeyPrefixCode, so.CodeHash(), so.code)
+	return so.stateDB.contractStore.Set(evm.KeyPrefixCode, so.CodeHash(), so.code)
 }
 
 // empty returns whether the account is considered empty.
